@@ -182,6 +182,8 @@ Definition eff (c p : path) (b : bool) : bool :=
   | None => b || path_eqb c p
   end.
 Definition sv (cmds : list path) (p : path) (v : bool) : bool := fold_left (fun b c => eff c p b) cmds v.
+Arguments sv : simpl never.
+Arguments eff : simpl never.
 
 Lemma sv_app a b p v : sv (a ++ b) p v = sv b p (sv a p v).
 Proof. unfold sv. apply fold_left_app. Qed.
@@ -296,3 +298,609 @@ Proof.
 Qed.
 Lemma nonneg_paths_adds f : allt nonneg f -> forall c, In c (paths f) -> removal_target c = None.
 Proof. intros A c Hc. apply rt_nonneg. eapply allt_paths; eauto. Qed.
+
+(* ------------------------------------------------------------------ the commands of config_to_get_to *)
+Lemma paths_flat_map {A} (g : A -> forest) (L : list A) : paths (flat_map g L) = flat_map (fun a => paths (g a)) L.
+Proof. induction L as [|a r IH]; [reflexivity|]. simpl. rewrite paths_app, IH. reflexivity. Qed.
+
+Lemma lefts_cons n S T :
+  lefts (n :: S) T = if has_text (ttext n) T then lefts S T else Node (swap_neg (ttext n)) [] :: lefts S T.
+Proof. unfold lefts. simpl. destruct (has_text (ttext n) T); reflexivity. Qed.
+
+Lemma sv_lefts x rest T : forall S, allt nonneg S -> forall v,
+  sv (paths (lefts S T)) (x :: rest) v = v && negb (has_text x S && negb (has_text x T)).
+Proof.
+  induction S as [|n S IH]; intros A v.
+  - simpl. rewrite sv_nil. symmetry. apply andb_true_r.
+  - inversion A as [|t k f Hp Ak Af]; subst. rewrite lefts_cons, has_text_cons. cbn [ttext].
+    destruct (has_text t T) eqn:HT.
+    + rewrite IH by assumption. destruct (str_eqb t x) eqn:E; simpl; [|reflexivity].
+      apply str_eqb_eq in E. subst. rewrite HT. simpl. rewrite andb_false_r. reflexivity.
+    + rewrite paths_cons, paths_node_eq. simpl map. simpl app. rewrite sv_cons, IH by assumption.
+      unfold eff. rewrite rt_single, (swap_neg_nonneg t Hp), is_neg_prefix. simpl skipn. simpl is_prefix.
+      destruct (str_eqb t x) eqn:E; simpl.
+      * apply str_eqb_eq in E. subst. rewrite HT. simpl. rewrite andb_false_r. reflexivity.
+      * rewrite andb_true_r. reflexivity.
+Qed.
+
+Lemma right_node_eq S t tk :
+  right_node S (Node t tk) =
+  match find_child t S with
+  | None => [Node t tk]
+  | Some sc => match ctgt (tkids sc) tk with [] => [] | sub => [Node t sub] end
+  end.
+Proof. reflexivity. Qed.
+
+Lemma right_node_heads S tc c : In c (paths (right_node S tc)) -> exists c', c = ttext tc :: c'.
+Proof.
+  destruct tc as [t tk]. rewrite right_node_eq. cbn [ttext].
+  assert (G : forall k, In c (paths [Node t k]) -> exists c', c = t :: c').
+  { intros k H. rewrite paths_cons, paths_node_eq, app_nil_r in H. destruct H as [E|H]; [subst; eauto|].
+    apply in_map_iff in H. destruct H as [q [E _]]. subst. eauto. }
+  destruct (find_child t S) as [sc|]; [|apply G].
+  destruct (ctgt (tkids sc) tk) as [|s0 sr]; [intros []|apply G].
+Qed.
+
+Lemma sv_right_sib S x rest : forall T, uniq T -> allt nonneg T -> forall v,
+  sv (flat_map (fun tc => paths (right_node S tc)) T) (x :: rest) v =
+  match find_child x T with
+  | None => v
+  | Some tc => sv (paths (right_node S tc)) (x :: rest) v
+  end.
+Proof.
+  intros T U. induction U as [|t k f Hn Uk _ Uf IH]; intros A v; [reflexivity|].
+  inversion A as [|t' k' f' Hp Ak Af]; subst. cbn [flat_map]. rewrite sv_app. cbn [find_child ttext].
+  destruct (str_eqb t x) eqn:E.
+  - apply str_eqb_eq in E. subst t. rewrite IH by assumption.
+    assert (F : find_child x f = None) by (apply find_child_none; exact Hn). rewrite F. reflexivity.
+  - rewrite (sv_other x rest (paths (right_node S (Node t k)))).
+    + apply IH. exact Af.
+    + intros c Hc. destruct (right_node_heads _ _ _ Hc) as [c' Ec]. cbn [ttext] in Ec.
+      exists t, c'. repeat split; [exact Ec|exact E|intros _; exact Hp].
+Qed.
+
+Lemma sv_false_nil C : (forall c, In c C -> c <> []) -> sv C [] false = false.
+Proof.
+  induction C as [|c r IH]; intros H; [reflexivity|]. rewrite sv_cons.
+  assert (E : eff c [] false = false).
+  { unfold eff. destruct (removal_target c); [reflexivity|]. simpl.
+    destruct c; [exfalso; apply (H [] (or_introl eq_refl)); reflexivity|reflexivity]. }
+  rewrite E. apply IH. intros c' Hc'. apply H. right. exact Hc'.
+Qed.
+
+Lemma mem_path_node x rest k :
+  mem_path (x :: rest) (paths_node (Node x k)) = match rest with [] => true | _ => mem_path rest (paths k) end.
+Proof.
+  rewrite paths_node_eq. apply eq_true_iff_eq. rewrite mem_path_In. simpl In. destruct rest as [|y r].
+  - split; [reflexivity|]. intros _. left. reflexivity.
+  - rewrite mem_path_In. split.
+    + intros [E|H]; [discriminate|]. apply in_map_iff in H. destruct H as [q [E Hq]]. inversion E; subst. exact Hq.
+    + intros H. right. apply in_map_iff. exists (y :: r). split; [reflexivity|exact H].
+Qed.
+
+Lemma memt_bool f p : uniq f -> mem_path p (paths f) = memt f p.
+Proof. intros U. apply eq_true_iff_eq. rewrite mem_path_In. apply paths_memt. exact U. Qed.
+
+Lemma ctgt_eq S T : ctgt S T = lefts S T ++ flat_map (right_node S) T.
+Proof. reflexivity. Qed.
+
+(* the heart of the matter: running the printed commands over the old path set decides, for every
+   path, exactly membership in the new config *)
+Lemma core p : forall S T, uniq S -> uniq T -> allt nonneg S -> allt nonneg T ->
+  sv (paths (ctgt S T)) p (memt S p) = memt T p.
+Proof.
+  induction p as [|x rest IH]; intros S T US UT AS AT.
+  - cbn [memt]. apply sv_false_nil. intros c Hc. eapply paths_nonempty; eauto.
+  - rewrite ctgt_eq, paths_app, sv_app, paths_flat_map, sv_lefts, sv_right_sib by assumption.
+    destruct (find_child x T) as [tc|] eqn:FT.
+    + (* x is a child of the target *)
+      destruct (find_child_some _ _ _ FT) as [HinT Etc]. destruct tc as [x' tk]. cbn [ttext] in Etc. subst x'.
+      assert (HT : has_text x T = true) by (apply has_text_In; exists (Node x tk); split; [exact HinT|reflexivity]).
+      rewrite HT. cbn [negb]. rewrite andb_false_r. cbn [negb]. rewrite andb_true_r.
+      assert (Utk : uniq tk) by (apply (uniq_find x T (Node x tk) UT FT)).
+      assert (Atk : allt nonneg tk) by (apply (allt_find nonneg x T (Node x tk) AT FT)).
+      assert (Nx : nonneg x) by (apply (allt_find nonneg x T (Node x tk) AT FT)).
+      assert (MT : memt T (x :: rest) = match rest with [] => true | _ => memt tk rest end).
+      { destruct rest; cbn [memt]; [exact HT|rewrite FT; reflexivity]. }
+      rewrite MT, right_node_eq.
+      destruct (find_child x S) as [sc|] eqn:FS.
+      * (* common child: recurse *)
+        assert (Usk : uniq (tkids sc)) by (apply (uniq_find x S sc US FS)).
+        assert (Ask : allt nonneg (tkids sc)) by (apply (allt_find nonneg x S sc AS FS)).
+        assert (HS : has_text x S = true).
+        { destruct (find_child_some _ _ _ FS) as [Hin E]. apply has_text_In. eauto. }
+        assert (MS : memt S (x :: rest) = match rest with [] => true | _ => memt (tkids sc) rest end).
+        { destruct rest; cbn [memt]; [exact HS|rewrite FS; reflexivity]. }
+        rewrite MS. specialize (IH (tkids sc) tk Usk Utk Ask Atk).
+        destruct (ctgt (tkids sc) tk) as [|s0 sr] eqn:Esub.
+        -- simpl paths. rewrite sv_nil. destruct rest; [reflexivity|]. rewrite <- IH. reflexivity.
+        -- rewrite <- Esub in *. rewrite paths_cons, app_nil_r, paths_node_eq, sv_cons.
+           assert (NE : forall c, In c (paths (ctgt (tkids sc) tk)) -> c <> []) by (intros c Hc; eapply paths_nonempty; eauto).
+           destruct rest as [|y r].
+           ++ rewrite sv_map_single by exact NE. unfold eff. rewrite rt_single, Nx. reflexivity.
+           ++ rewrite sv_map_strip by exact NE. unfold eff. rewrite rt_single, Nx. simpl path_eqb.
+              rewrite andb_false_r, orb_false_r. exact IH.
+      * (* new child: the whole subtree is added *)
+        assert (MS : memt S (x :: rest) = false).
+        { apply find_child_none in FS. destruct rest; cbn [memt]; [exact FS|]. apply find_child_none in FS. rewrite FS. reflexivity. }
+        rewrite MS, paths_cons, app_nil_r, sv_adds.
+        -- rewrite orb_false_l, mem_path_node. destruct rest; [reflexivity|]. apply memt_bool. exact Utk.
+        -- intros c Hc. apply (nonneg_paths_adds [Node x tk]); [constructor; [exact Nx|exact Atk|constructor]|].
+           rewrite paths_cons, app_nil_r. exact Hc.
+    + (* x is not a child of the target *)
+      assert (HT : has_text x T = false) by (apply find_child_none; exact FT).
+      rewrite HT. cbn [negb]. rewrite andb_true_r.
+      assert (MT : memt T (x :: rest) = false).
+      { destruct rest; cbn [memt]; [exact HT|rewrite FT; reflexivity]. }
+      rewrite MT. destruct (has_text x S) eqn:HS; [apply andb_false_r|].
+      assert (MS : memt S (x :: rest) = false).
+      { destruct rest; cbn [memt]; [exact HS|]. apply find_child_none in HS. rewrite HS. reflexivity. }
+      rewrite MS. reflexivity.
+Qed.
+
+Theorem apply_forest S T : uniq S -> uniq T -> allt nonneg S -> allt nonneg T ->
+  forall p, In p (apply_cmds (paths (ctgt S T)) (paths S)) <-> In p (paths T).
+Proof.
+  intros US UT AS AT p. rewrite apply_sv, (memt_bool S p US), core by assumption.
+  symmetry. apply paths_memt. exact UT.
+Qed.
+
+(* ------------------------------------------------------------------ additions and removals *)
+Lemma in_paths_lefts c S T :
+  In c (paths (lefts S T)) <-> exists n, In n S /\ has_text (ttext n) T = false /\ c = [swap_neg (ttext n)].
+Proof.
+  induction S as [|m S IH].
+  - simpl. split; [intros []|intros [n [[] _]]].
+  - rewrite lefts_cons. destruct (has_text (ttext m) T) eqn:HT.
+    + rewrite IH. split.
+      * intros [n [Hn H]]. exists n. split; [right; exact Hn|exact H].
+      * intros [n [[E|Hn] [H1 H2]]]; [subst; congruence|]. exists n. auto.
+    + rewrite paths_cons, in_app_iff, IH, paths_node_eq. simpl. split.
+      * intros [[E|[]]|[n [Hn H]]]; [exists m; auto|]. exists n. split; [right; exact Hn|exact H].
+      * intros [n [[E|Hn] [H1 H2]]]; [subst; left; left; reflexivity|]. right. exists n. auto.
+Qed.
+
+Lemma in_ctgt_right S T tc c : In tc T -> In c (paths (right_node S tc)) -> In c (paths (ctgt S T)).
+Proof.
+  intros Ht Hc. rewrite ctgt_eq, paths_app, in_app_iff, paths_flat_map. right.
+  apply in_flat_map. exists tc. auto.
+Qed.
+Lemma in_ctgt_inv S T c : In c (paths (ctgt S T)) ->
+  In c (paths (lefts S T)) \/ exists tc, In tc T /\ In c (paths (right_node S tc)).
+Proof.
+  rewrite ctgt_eq, paths_app, in_app_iff, paths_flat_map, in_flat_map. tauto.
+Qed.
+
+Lemma in_paths_child f x n q : uniq f -> find_child x f = Some n -> q <> [] ->
+  (In (x :: q) (paths f) <-> In q (paths (tkids n))).
+Proof.
+  intros U F Hq. rewrite (paths_memt (x :: q) f U), (paths_memt q (tkids n) (uniq_find x f n U F)).
+  destruct q; [congruence|]. cbn [memt]. rewrite F. tauto.
+Qed.
+Lemma in_paths_absent f x q : has_text x f = false -> ~ In (x :: q) (paths f).
+Proof.
+  intros H Hin. apply in_paths in Hin. destruct Hin as [n [Hn [E|[q' [E _]]]]]; inversion E; subst;
+    assert (has_text (ttext n) f = true) by (apply has_text_In; eauto); congruence.
+Qed.
+Lemma in_paths_single f x : In [x] (paths f) <-> has_text x f = true.
+Proof.
+  rewrite in_paths, has_text_In. split.
+  - intros [n [Hn [E|[q [E Hq]]]]]; inversion E; subst; [eauto|]. apply paths_nonempty in Hq. congruence.
+  - intros [n [Hn E]]. exists n. split; [exact Hn|]. left. subst. reflexivity.
+Qed.
+
+Lemma strict_prefix_cons x a b : strict_prefix (x :: a) (x :: b) = strict_prefix a b.
+Proof. unfold strict_prefix. simpl. rewrite str_eqb_refl. reflexivity. Qed.
+
+Lemma adds_spec c : forall S T, uniq S -> uniq T -> allt nonneg S -> allt nonneg T ->
+  In c (paths (ctgt S T)) -> removal_target c = None ->
+  In c (paths T) /\ (In c (paths S) -> exists c', In c' (paths (ctgt S T)) /\ strict_prefix c c' = true).
+Proof.
+  induction c as [|x q IH]; intros S T US UT AS AT Hc Hr.
+  - apply paths_nonempty in Hc. congruence.
+  - apply in_ctgt_inv in Hc. destruct Hc as [Hl|[tc [HtcT Hc]]].
+    + (* a negation is never an addition *)
+      apply in_paths_lefts in Hl. destruct Hl as [n [Hn [_ E]]].
+      destruct (allt_In nonneg S n AS Hn) as [Nn _]. rewrite (swap_neg_nonneg _ Nn) in E.
+      rewrite E, rt_single, is_neg_prefix in Hr. discriminate.
+    + destruct (right_node_heads _ _ _ Hc) as [q' Eq]. inversion Eq; subst q'. destruct tc as [t tk]. cbn [ttext] in *. subst t.
+      assert (FT : find_child x T = Some (Node x tk)) by (apply uniq_find_unique; auto).
+      destruct (allt_In nonneg T _ AT HtcT) as [Nx Atk]. cbn [ttext tkids] in Nx, Atk.
+      assert (Utk : uniq tk) by (apply (uniq_find x T _ UT FT)).
+      pose proof Hc as Hc0. rewrite right_node_eq in Hc.
+      destruct (find_child x S) as [sc|] eqn:FS.
+      * assert (Usk : uniq (tkids sc)) by (apply (uniq_find x S sc US FS)).
+        assert (Ask : allt nonneg (tkids sc)) by (apply (allt_find nonneg x S sc AS FS)).
+        destruct (ctgt (tkids sc) tk) as [|s0 sr] eqn:Esub; [destruct Hc|]. rewrite <- Esub in Hc.
+        rewrite paths_cons, app_nil_r, paths_node_eq in Hc. destruct Hc as [E|Hm].
+        -- (* the printed context line *)
+           inversion E; subst q. split.
+           ++ apply in_paths_single. apply has_text_In. exists (Node x tk). auto.
+           ++ intros _. exists (x :: [ttext s0]). split.
+              ** apply (in_ctgt_right S T (Node x tk)); [exact HtcT|]. rewrite right_node_eq, FS, Esub.
+                 rewrite paths_cons, app_nil_r, paths_node_eq. right. apply in_map.
+                 apply in_paths. exists s0. split; [left; reflexivity|left; reflexivity].
+              ** unfold strict_prefix. simpl. rewrite str_eqb_refl. reflexivity.
+        -- apply in_map_iff in Hm. destruct Hm as [q0 [E Hq0]]. inversion E; subst q0.
+           assert (Hq : q <> []) by (eapply paths_nonempty; eauto).
+           rewrite (rt_cons x q Hq) in Hr. destruct (removal_target q) eqn:Rq; [discriminate|].
+           destruct (IH (tkids sc) tk Usk Utk Ask Atk Hq0 eq_refl) as [I1 I2]. split.
+           ++ apply (in_paths_child T x (Node x tk) q UT FT Hq). exact I1.
+           ++ intros HS. apply (in_paths_child S x sc q US FS Hq) in HS. destruct (I2 HS) as [c' [Hc' Sp]].
+              exists (x :: c'). split.
+              ** apply (in_ctgt_right S T (Node x tk)); [exact HtcT|]. rewrite right_node_eq, FS, Esub, <- Esub.
+                 rewrite paths_cons, app_nil_r, paths_node_eq. right. apply in_map. exact Hc'.
+              ** rewrite strict_prefix_cons. exact Sp.
+      * rewrite paths_cons, app_nil_r in Hc. split.
+        -- apply in_paths. exists (Node x tk). split; [exact HtcT|]. rewrite paths_node_eq in Hc. cbn [ttext tkids].
+           destruct Hc as [E|Hm]; [left; exact (eq_sym E)|]. right. apply in_map_iff in Hm.
+           destruct Hm as [q0 [E Hq0]]. inversion E; subst. eauto.
+        -- intros HS. exfalso. apply find_child_none in FS. exact (in_paths_absent S x q FS HS).
+Qed.
+
+Lemma removes_spec c : forall S T tgt, uniq S -> uniq T -> allt nonneg S -> allt nonneg T ->
+  In c (paths (ctgt S T)) -> removal_target c = Some tgt ->
+  In tgt (paths S) /\ ~ In tgt (paths T).
+Proof.
+  induction c as [|x q IH]; intros S T tgt US UT AS AT Hc Hr.
+  - apply paths_nonempty in Hc. congruence.
+  - apply in_ctgt_inv in Hc. destruct Hc as [Hl|[tc [HtcT Hc]]].
+    + apply in_paths_lefts in Hl. destruct Hl as [n [Hn [HT E]]].
+      destruct (allt_In nonneg S n AS Hn) as [Nn _]. rewrite (swap_neg_nonneg _ Nn) in E.
+      rewrite E, rt_single, is_neg_prefix in Hr. inversion Hr; subst tgt. simpl skipn. split.
+      * apply in_paths_single. apply has_text_In. eauto.
+      * rewrite in_paths_single. congruence.
+    + destruct (right_node_heads _ _ _ Hc) as [q' Eq]. inversion Eq; subst q'. destruct tc as [t tk]. cbn [ttext] in *. subst t.
+      assert (FT : find_child x T = Some (Node x tk)) by (apply uniq_find_unique; auto).
+      destruct (allt_In nonneg T _ AT HtcT) as [Nx Atk]. cbn [ttext tkids] in Nx, Atk.
+      assert (Utk : uniq tk) by (apply (uniq_find x T _ UT FT)).
+      rewrite right_node_eq in Hc.
+      destruct (find_child x S) as [sc|] eqn:FS.
+      * assert (Usk : uniq (tkids sc)) by (apply (uniq_find x S sc US FS)).
+        assert (Ask : allt nonneg (tkids sc)) by (apply (allt_find nonneg x S sc AS FS)).
+        destruct (ctgt (tkids sc) tk) as [|s0 sr] eqn:Esub; [destruct Hc|]. rewrite <- Esub in Hc.
+        rewrite paths_cons, app_nil_r, paths_node_eq in Hc. destruct Hc as [E|Hm].
+        -- inversion E; subst q. rewrite rt_single, Nx in Hr. discriminate.
+        -- apply in_map_iff in Hm. destruct Hm as [q0 [E Hq0]]. inversion E; subst q0.
+           assert (Hq : q <> []) by (eapply paths_nonempty; eauto).
+           rewrite (rt_cons x q Hq) in Hr. destruct (removal_target q) as [tg'|] eqn:Rq; [|discriminate].
+           simpl in Hr. inversion Hr; subst tgt.
+           destruct (IH (tkids sc) tk tg' Usk Utk Ask Atk Hq0 eq_refl) as [I1 I2].
+           assert (Hg : tg' <> []) by (eapply rt_nonempty; eauto). split.
+           ++ apply (in_paths_child S x sc tg' US FS Hg). exact I1.
+           ++ intros HT. apply (in_paths_child T x (Node x tk) tg' UT FT Hg) in HT. exact (I2 HT).
+      * exfalso. rewrite paths_cons, app_nil_r in Hc.
+        assert (R : removal_target (x :: q) = None).
+        { apply (nonneg_paths_adds [Node x tk]); [constructor; [exact Nx|exact Atk|constructor]|].
+          rewrite paths_cons, app_nil_r. exact Hc. }
+        congruence.
+Qed.
+
+(* ------------------------------------------------------------------ the diff of a config with itself *)
+Lemma lefts_self f g : (forall n, In n f -> has_text (ttext n) g = true) -> lefts f g = [].
+Proof.
+  induction f as [|n f IH]; intros H; [reflexivity|]. rewrite lefts_cons, (H n (or_introl eq_refl)).
+  apply IH. intros m Hm. apply H. right. exact Hm.
+Qed.
+Lemma flat_map_nil {A B} (g : A -> list B) L : (forall a, In a L -> g a = []) -> flat_map g L = [].
+Proof.
+  induction L as [|a r IH]; intros H; [reflexivity|]. simpl. rewrite (H a (or_introl eq_refl)). simpl.
+  apply IH. intros b Hb. apply H. right. exact Hb.
+Qed.
+Lemma ctgt_self_step f : uniq f -> (forall m, In m f -> ctgt (tkids m) (tkids m) = []) -> ctgt f f = [].
+Proof.
+  intros U H. rewrite ctgt_eq, lefts_self.
+  2:{ intros n Hn. apply has_text_In. eauto. }
+  simpl app. apply flat_map_nil. intros [t k] Hm. rewrite right_node_eq.
+  rewrite (uniq_find_unique f (Node t k) t U Hm eq_refl). cbn [tkids].
+  pose proof (H (Node t k) Hm) as Hk. cbn [tkids] in Hk. rewrite Hk. reflexivity.
+Qed.
+Lemma ctgt_self_members : forall f, uniq f -> forall m, In m f -> ctgt (tkids m) (tkids m) = [].
+Proof.
+  induction f as [|t k f IHk IHf] using forest_ind2; intros U m Hm; [destruct Hm|].
+  inversion U as [|t' k' f' Hn Uk Uf]; subst. destruct Hm as [E|Hm].
+  - subst m. cbn [tkids]. apply ctgt_self_step; [exact Uk|]. apply IHk. exact Uk.
+  - apply IHf; assumption.
+Qed.
+Lemma ctgt_self f : uniq f -> ctgt f f = [].
+Proof. intros U. apply ctgt_self_step; [exact U|]. apply ctgt_self_members. exact U. Qed.
+
+(* ------------------------------------------------------------------ the loader keeps siblings unique *)
+Lemma uniq_snoc f t : uniq f -> has_text t f = false -> uniq (f ++ [Node t []]).
+Proof.
+  intros U. induction U as [|t0 k f Hn Uk _ Uf IH]; intros H.
+  - simpl. constructor; [reflexivity|constructor|constructor].
+  - rewrite has_text_cons in H. apply orb_false_iff in H. destruct H as [H1 H2]. cbn [ttext] in H1.
+    simpl app. constructor; [|exact Uk|apply IH; exact H2].
+    rewrite has_text_app, Hn. simpl. rewrite str_eqb_sym, H1. reflexivity.
+Qed.
+Lemma allt_snoc (P : str -> Prop) f t : allt P f -> P t -> allt P (f ++ [Node t []]).
+Proof. intros A Ht. apply allt_app; [exact A|]. constructor; [exact Ht|constructor|constructor]. Qed.
+
+Lemma has_text_upd x p g f : has_text x (upd_first p g f) = has_text x f.
+Proof.
+  induction f as [|[t k] r IH]; [reflexivity|]. cbn [upd_first]. destruct (str_eqb t p).
+  - rewrite !has_text_cons. reflexivity.
+  - rewrite !has_text_cons, IH. reflexivity.
+Qed.
+Lemma uniq_upd p g f : (forall k, uniq k -> uniq (g k)) -> uniq f -> uniq (upd_first p g f).
+Proof.
+  intros Hg U. induction U as [|t k f Hn Uk _ Uf IH]; [constructor|]. cbn [upd_first]. destruct (str_eqb t p).
+  - constructor; [exact Hn|apply Hg; exact Uk|exact Uf].
+  - constructor; [rewrite has_text_upd; exact Hn|exact Uk|exact IH].
+Qed.
+Lemma allt_upd (P : str -> Prop) p g f : (forall k, allt P k -> allt P (g k)) -> allt P f -> allt P (upd_first p g f).
+Proof.
+  intros Hg A. induction A as [|t k f Hp Ak _ Af IH]; [constructor|]. cbn [upd_first]. destruct (str_eqb t p).
+  - constructor; [exact Hp|apply Hg; exact Ak|exact Af].
+  - constructor; [exact Hp|exact Ak|exact IH].
+Qed.
+Lemma uniq_add_at t pth : forall f, uniq f -> uniq (add_at pth t f).
+Proof.
+  induction pth as [|p ps IH]; intros f U; cbn [add_at].
+  - unfold add_child. destruct (has_text t f) eqn:E; [exact U|apply uniq_snoc; assumption].
+  - apply uniq_upd; [exact IH|exact U].
+Qed.
+Lemma allt_add_at (P : str -> Prop) t pth : P t -> forall f, allt P f -> allt P (add_at pth t f).
+Proof.
+  intros Ht. induction pth as [|p ps IH]; intros f A; cbn [add_at].
+  - unfold add_child. destruct (has_text t f); [exact A|apply allt_snoc; assumption].
+  - apply allt_upd; [exact IH|exact A].
+Qed.
+
+Lemma split_ws_aux_words p s : forall cur, forallb (fun c => negb (p c)) cur = true ->
+  Forall (fun w => w <> [] /\ forallb (fun c => negb (p c)) w = true) (split_ws_aux p cur s).
+Proof.
+  assert (R : forall cur, cur <> [] -> forallb (fun c => negb (p c)) cur = true ->
+              rev cur <> [] /\ forallb (fun c => negb (p c)) (rev cur) = true).
+  { intros cur Hc Hf. split.
+    - intros E. apply Hc. rewrite <- (rev_involutive cur), E. reflexivity.
+    - rewrite forallb_forall in *. intros c Hin. apply Hf. apply in_rev. exact Hin. }
+  induction s as [|c r IH]; intros cur Hcur; cbn [split_ws_aux].
+  - destruct cur as [|c0 cur']; [constructor|]. constructor; [|constructor]. apply R; [discriminate|exact Hcur].
+  - destruct (p c) eqn:Pc.
+    + destruct cur as [|c0 cur']; [apply IH; reflexivity|].
+      constructor; [apply R; [discriminate|exact Hcur]|apply IH; reflexivity].
+    + apply IH. simpl. rewrite Pc. exact Hcur.
+Qed.
+
+Lemma norm_line_nolead l ind t : norm_line l = Some (ind, t) -> nolead t.
+Proof.
+  assert (W : Forall (fun w => w <> [] /\ forallb (fun c => negb (is_space c)) w = true) (split_ws l))
+    by (apply split_ws_aux_words; reflexivity).
+  unfold norm_line. revert W. destruct (split_ws l) as [|w ws]; intros W; [discriminate|]. intros H. inversion H; subst. clear H.
+  destruct (Forall_inv W) as [Hw Hf].
+  destruct w as [|c w']; [exfalso; apply Hw; reflexivity|].
+  assert (Hc : is_sp c = false).
+  { simpl in Hf. apply andb_true_iff in Hf. destruct Hf as [Hf _]. unfold is_sp, sp.
+    destruct (N.eqb c 32) eqn:E; [|reflexivity]. apply N.eqb_eq in E. subst. discriminate. }
+  destruct ws; simpl; exact Hc.
+Qed.
+
+Definition st_ok (st : lstate) : Prop := uniq (fst (fst st)) /\ allt nolead (fst (fst st)).
+Lemma load_step_ok st l : st_ok st -> st_ok (load_step st l).
+Proof.
+  intros [U A]. unfold load_step. destruct (norm_line l) as [[ind t]|] eqn:E; [|split; assumption].
+  destruct st as [[f cs] mr]. simpl in U, A. split; simpl.
+  - apply uniq_add_at. exact U.
+  - apply allt_add_at; [eapply norm_line_nolead; eauto|exact A].
+Qed.
+Lemma load_fold_ok ls : forall st, st_ok st -> st_ok (fold_left load_step ls st).
+Proof. induction ls as [|l r IH]; intros st H; [exact H|]. simpl. apply IH. apply load_step_ok. exact H. Qed.
+Lemma load_lines_uniq ls : uniq (load_lines ls).
+Proof. apply (load_fold_ok ls ([], [], [])). split; constructor. Qed.
+Lemma load_lines_nolead ls : allt nolead (load_lines ls).
+Proof. apply (load_fold_ok ls ([], [], [])). split; constructor. Qed.
+
+(* ------------------------------------------------------------------ reading the printed diff back *)
+Lemma count_leading_repeat n t : nolead t -> count_leading is_sp (repeat sp n ++ t) = n.
+Proof.
+  intros H. induction n as [|n IH]; cbn [repeat app count_leading].
+  - destruct t as [|c t']; [reflexivity|]. simpl in H. cbn [count_leading]. rewrite H. reflexivity.
+  - assert (E : is_sp sp = true) by reflexivity. rewrite E. f_equal. exact IH.
+Qed.
+Lemma skipn_repeat n (t : str) : skipn n (repeat sp n ++ t) = t.
+Proof. induction n as [|n IH]; [reflexivity|exact IH]. Qed.
+
+Lemma parse_step_line d t stk acc : nolead t ->
+  parse_step (stk, acc) (repeat sp (2 * d) ++ t) = (firstn d stk ++ [t], acc ++ [firstn d stk ++ [t]]).
+Proof.
+  intros H. unfold parse_step. cbn [fst snd]. rewrite (count_leading_repeat (2 * d) t H), skipn_repeat.
+  replace (2 * d / 2) with d by (rewrite Nat.mul_comm, Nat.div_mul; [reflexivity|discriminate]). reflexivity.
+Qed.
+
+Lemma render_node_eq d t k : render_node d (Node t k) = (repeat sp (2 * d) ++ t) :: flat_map (render_node (S d)) k.
+Proof. reflexivity. Qed.
+
+Definition parse_node_P (n : tree) : Prop :=
+  forall d pre junk acc, nolead (ttext n) -> allt nolead (tkids n) -> length pre = d ->
+  exists junk', fold_left parse_step (render_node d n) (pre ++ junk, acc) = (pre ++ junk', acc ++ map (app pre) (paths_node n)).
+
+Lemma parse_forest_of f : Forall parse_node_P f ->
+  forall d pre junk acc, allt nolead f -> length pre = d ->
+  exists junk', fold_left parse_step (flat_map (render_node d) f) (pre ++ junk, acc) = (pre ++ junk', acc ++ map (app pre) (paths f)).
+Proof.
+  intros HF. induction HF as [|m r Hm _ IH]; intros d pre junk acc A L.
+  - exists junk. simpl. rewrite app_nil_r. reflexivity.
+  - inversion A as [|t k f' Hp Ak Af]; subst. cbn [flat_map]. rewrite fold_left_app.
+    destruct (Hm (length pre) pre junk acc Hp Ak eq_refl) as [j1 E1]. rewrite E1.
+    destruct (IH (length pre) pre j1 (acc ++ map (app pre) (paths_node (Node t k))) Af eq_refl) as [j2 E2]. rewrite E2.
+    exists j2. rewrite paths_cons, map_app, app_assoc. reflexivity.
+Qed.
+
+Lemma parse_node_all : forall n, parse_node_P n.
+Proof.
+  induction n as [t k Hk] using tree_ind2. intros d pre junk acc Hp Ak L. cbn [ttext tkids] in Hp, Ak.
+  assert (F : firstn d (pre ++ junk) = pre) by (subst d; rewrite firstn_app, Nat.sub_diag, firstn_all; simpl; apply app_nil_r).
+  destruct (parse_forest_of k Hk (S d) (pre ++ [t]) [] (acc ++ [pre ++ [t]]) Ak) as [j E].
+  { rewrite app_length. simpl. lia. }
+  exists ([t] ++ j).
+  pose proof (parse_step_line d t (pre ++ junk) acc Hp) as PS.
+  rewrite render_node_eq. cbn [fold_left]. unfold path in *. rewrite PS, F.
+  rewrite app_nil_r in E. rewrite E. rewrite <- app_assoc. f_equal.
+  rewrite paths_node_eq. simpl map. rewrite <- app_assoc. simpl app. f_equal. f_equal.
+  rewrite map_map. apply map_ext. intros q. rewrite <- app_assoc. reflexivity.
+Qed.
+
+Lemma parse_render f : allt nolead f -> parse_out (render f) = paths f.
+Proof.
+  intros A. unfold parse_out, render.
+  assert (HF : Forall parse_node_P f) by (apply Forall_forall; intros n _; apply parse_node_all).
+  destruct (parse_forest_of f HF 0 [] [] [] A eq_refl) as [j E]. simpl app in E. rewrite E. simpl.
+  rewrite (map_ext (app []) (fun q : path => q)) by reflexivity. apply map_id.
+Qed.
+
+(* ------------------------------------------------------------------ the delta keeps texts printable *)
+Lemma nolead_neg t : nolead (neg_prefix ++ t).
+Proof. reflexivity. Qed.
+Lemma allt_lefts S T : allt nonneg S -> allt nolead (lefts S T).
+Proof.
+  intros A. induction A as [|t k f Hp Ak _ Af IH]; [constructor|]. rewrite lefts_cons. cbn [ttext].
+  destruct (has_text t T); [exact IH|]. constructor; [|constructor|exact IH].
+  rewrite (swap_neg_nonneg t Hp). apply nolead_neg.
+Qed.
+Lemma allt_rights : forall T S, allt nonneg S -> allt nolead T -> allt nolead (flat_map (right_node S) T).
+Proof.
+  induction T as [|t k f IHk IHf] using forest_ind2; intros S AS AT; [constructor|].
+  inversion AT as [|t' k' f' Hp Ak Af]; subst. cbn [flat_map]. apply allt_app; [|apply IHf; assumption].
+  rewrite right_node_eq. destruct (find_child t S) as [sc|] eqn:FS.
+  - pose proof (allt_find nonneg t S sc AS FS) as [Ask _].
+    assert (A2 : allt nolead (ctgt (tkids sc) k)).
+    { rewrite ctgt_eq. apply allt_app; [apply allt_lefts; exact Ask|apply IHk; assumption]. }
+    destruct (ctgt (tkids sc) k) as [|s0 sr]; [constructor|]. constructor; [exact Hp|exact A2|constructor].
+  - constructor; [exact Hp|exact Ak|constructor].
+Qed.
+Lemma allt_ctgt S T : allt nonneg S -> allt nolead T -> allt nolead (ctgt S T).
+Proof. intros AS AT. rewrite ctgt_eq. apply allt_app; [apply allt_lefts; exact AS|apply allt_rights; assumption]. Qed.
+
+(* ------------------------------------------------------------------ input forms *)
+Definition nobreak (l : str) : Prop := forallb (fun c => negb (is_linebreak c)) l = true.
+
+Lemma splitlines_aux_line l : nobreak l -> forall cur rest, splitlines_aux cur (l ++ rest) = splitlines_aux (rev l ++ cur) rest.
+Proof.
+  unfold nobreak. induction l as [|c l IH]; intros H cur rest; [reflexivity|].
+  simpl in H. apply andb_true_iff in H. destruct H as [Hc Hl]. apply negb_true_iff in Hc.
+  simpl app. cbn [splitlines_aux].
+  assert (E : N.eqb c 13 = false).
+  { destruct (N.eqb c 13) eqn:E; [|reflexivity]. apply N.eqb_eq in E. subst. discriminate. }
+  rewrite E, Hc, IH by exact Hl. simpl rev. rewrite <- app_assoc. reflexivity.
+Qed.
+Lemma splitlines_aux_nl cur rest : splitlines_aux cur (10%N :: rest) = rev cur :: splitlines_aux [] rest.
+Proof. reflexivity. Qed.
+Lemma load_step_blank st : load_step st [] = st.
+Proof. reflexivity. Qed.
+
+Lemma splitlines_join ls : Forall nobreak ls ->
+  forall st, fold_left load_step (splitlines (join linesep ls)) st = fold_left load_step ls st.
+Proof.
+  intros H. induction H as [|l r Hl Hr IH]; intros st; [reflexivity|].
+  destruct r as [|l2 r'].
+  - cbn [join]. unfold splitlines. rewrite <- (app_nil_r l) at 1. rewrite (splitlines_aux_line l Hl), app_nil_r.
+    cbn [splitlines_aux]. destruct (rev l) as [|c0 rl] eqn:E.
+    + assert (l = []) by (rewrite <- (rev_involutive l), E; reflexivity). subst. reflexivity.
+    + rewrite <- E, rev_involutive. reflexivity.
+  - change (join linesep (l :: l2 :: r')) with (l ++ 10%N :: join linesep (l2 :: r')).
+    unfold splitlines. rewrite (splitlines_aux_line l Hl), app_nil_r, splitlines_aux_nl, rev_involutive.
+    cbn [fold_left]. apply IH.
+Qed.
+
+Lemma load_list ls : Forall nobreak ls -> load (FList ls) = load_lines ls.
+Proof. intros H. unfold load, load_lines. cbn [norm_form]. rewrite splitlines_join by exact H. reflexivity. Qed.
+
+(* ------------------------------------------------------------------ statements about forms *)
+Definition no_negated (f : form) : Prop := allt nonneg (load f).
+
+Lemma load_uniq f : uniq (load f).
+Proof. apply load_lines_uniq. Qed.
+Lemma load_nolead f : allt nolead (load f).
+Proof. apply load_lines_nolead. Qed.
+
+Lemma parse_get_diff old new : no_negated old ->
+  parse_out (get_diff old new) = paths (ctgt (load old) (load new)).
+Proof. intros N. unfold get_diff. apply parse_render. apply allt_ctgt; [exact N|apply load_nolead]. Qed.
+
+Lemma diff_apply old new : no_negated old -> no_negated new ->
+  forall p, In p (apply_cmds (parse_out (get_diff old new)) (paths (load old))) <-> In p (paths (load new)).
+Proof.
+  intros No Nn p. rewrite (parse_get_diff old new No).
+  apply apply_forest; auto using load_uniq.
+Qed.
+
+Lemma diff_adds_absent old new : no_negated old -> no_negated new ->
+  forall c, In c (parse_out (get_diff old new)) -> removal_target c = None ->
+  In c (paths (load new)) /\
+  (In c (paths (load old)) -> exists c', In c' (parse_out (get_diff old new)) /\ strict_prefix c c' = true).
+Proof.
+  intros No Nn c. rewrite (parse_get_diff old new No). intros Hc Hr.
+  apply adds_spec; auto using load_uniq.
+Qed.
+
+Lemma diff_removes_present_and_gone old new : no_negated old -> no_negated new ->
+  forall c tgt, In c (parse_out (get_diff old new)) -> removal_target c = Some tgt ->
+  In tgt (paths (load old)) /\ ~ In tgt (paths (load new)).
+Proof.
+  intros No Nn c tgt. rewrite (parse_get_diff old new No). intros Hc Hr.
+  eapply removes_spec; eauto using load_uniq.
+Qed.
+
+Lemma diff_self_empty f : get_diff f f = [].
+Proof. unfold get_diff. rewrite ctgt_self by apply load_uniq. reflexivity. Qed.
+
+Lemma forms_same_config ls : Forall nobreak ls ->
+  load (FList ls) = load_lines ls /\ load (FTuple ls) = load_lines ls /\
+  load (FStr (join linesep ls)) = load_lines ls /\ load (FFile (join linesep ls)) = load_lines ls.
+Proof. intros H. pose proof (load_list ls H) as E. repeat split; exact E. Qed.
+Lemma form_none : load FNone = load_lines [] /\ load (FList []) = load_lines [] /\ load (FStr []) = load_lines [].
+Proof. repeat split; reflexivity. Qed.
+
+(* consequently the diff does not depend on the form in which either side is given *)
+Definition same_config (a b : form) : Prop := load a = load b.
+Lemma forms_same_diff a a' b b' : same_config a a' -> same_config b b' ->
+  get_diff a b = get_diff a' b' /\ get_rollback a b = get_rollback a' b'.
+Proof. unfold same_config, get_diff, get_rollback. intros -> ->. split; reflexivity. Qed.
+
+(* ------------------------------------------------------------------ the model passes the check applied to the real output *)
+Lemma subset_b_incl a b : subset_b a b = true <-> (forall p, In p a -> In p b).
+Proof.
+  unfold subset_b. rewrite forallb_forall. split; intros H p Hp.
+  - apply mem_path_In. apply H. exact Hp.
+  - apply mem_path_In. apply H. exact Hp.
+Qed.
+Lemma seteq_b_iff a b : seteq_b a b = true <-> (forall p, In p a <-> In p b).
+Proof.
+  unfold seteq_b. rewrite andb_true_iff, !subset_b_incl. split.
+  - intros [H1 H2] p. split; auto.
+  - intros H. split; intros p; apply H.
+Qed.
+
+Lemma model_passes_check old new : no_negated old -> no_negated new ->
+  spec_ok (paths (load old)) (paths (load new)) (parse_out (get_diff old new)) = true.
+Proof.
+  intros No Nn. unfold spec_ok. rewrite !andb_true_iff. repeat split.
+  - apply seteq_b_iff. apply diff_apply; assumption.
+  - unfold clause_adds. apply forallb_forall. intros c Hc.
+    destruct (removal_target c) as [tgt|] eqn:R; [reflexivity|].
+    destruct (diff_adds_absent old new No Nn c Hc R) as [H1 H2].
+    apply andb_true_iff. split; [apply mem_path_In; exact H1|].
+    destruct (mem_path c (paths (load old))) eqn:M; [|reflexivity]. simpl.
+    apply mem_path_In in M. destruct (H2 M) as [c' [Hc' Sp]]. apply existsb_exists. eauto.
+  - unfold clause_removes. apply forallb_forall. intros c Hc.
+    destruct (removal_target c) as [tgt|] eqn:R; [|reflexivity].
+    destruct (diff_removes_present_and_gone old new No Nn c tgt Hc R) as [H1 H2].
+    apply andb_true_iff. split; [apply mem_path_In; exact H1|].
+    apply negb_true_iff. destruct (mem_path tgt (paths (load new))) eqn:M; [|reflexivity].
+    apply mem_path_In in M. contradiction.
+Qed.
+
+(* ------------------------------------------------------------------ non-vacuity *)
+Definition ex_old : form := FList [[97]; [32; 98]; [32; 99]; [100]]%N.                     (* a / b / c under a, d *)
+Definition ex_new : form := FStr [97; 10; 32; 98; 10; 32; 101; 10; 102; 10]%N.            (* "a\n b\n e\nf\n" *)
+Example ex_hyp : no_negated ex_old /\ no_negated ex_new.
+Proof. split; unfold no_negated; vm_compute; repeat constructor. Qed.
+Example ex_diff : get_diff ex_old ex_new = [[110; 111; 32; 100]; [97]; [32; 32; 110; 111; 32; 99]; [32; 32; 101]; [102]]%N.
+Proof. vm_compute. reflexivity. Qed.                     (* no d / a /   no c /   e / f *)
+Example ex_forms : Forall nobreak [[97]; [32; 98]]%N.
+Proof. repeat constructor. Qed.
+
+Lemma rollback_is_mirror old new : get_rollback old new = get_diff new old.
+Proof. reflexivity. Qed.
